@@ -77,24 +77,40 @@ def r19_1(ctx) -> None:
 def r19_2(ctx) -> None:
     u = ctx.unit("asynctools.any_iter")
     p = u.param_names()[0]
-    first = [s for s in u.node.body if isinstance(s, ast.Assign)]
-    ok = False
-    it_name = None
-    if first:
-        v = first[0].value
-        it_name = norm(first[0].targets[0])
-        ok = isinstance(v, ast.IfExp) and "isinstance" in norm(v.test) and "Awaitable" in norm(v.test) and p in norm(v.test)
-        if ok:
-            neg = isinstance(v.test, ast.UnaryOp)
-            plain, awaited = (v.body, v.orelse) if neg else (v.orelse, v.body)
-            ok = norm(plain) == p and isinstance(awaited, ast.Await) and norm(awaited.value) == p
-    ctx.check(ok, "R19.2", u, first[0] if first else "any_iter", "the outer object is awaited iff it is an Awaitable, "
-              "before its iteration protocol is inspected")
-    branches = [s for s in u.node.body if isinstance(s, ast.If)]
-    ok = len(branches) == 1 and "isinstance" in norm(branches[0].test) and "AsyncIterable" in norm(branches[0].test) \
-        and it_name is not None and it_name in norm(branches[0].test)
-    ctx.check(ok, "R19.2", u, branches[0] if branches else "any_iter", "the resolved object is dispatched on AsyncIterable")
-    if not ok:
+    cfg = cfg_of(u)
+    main = [n for n in cfg.nodes if not n.tag]
+    disp = [n for n in main if n.kind == "branch" and isinstance(n.ast, ast.Call) and norm(n.ast.func) == "isinstance"
+            and norm(n.ast.args[1]) == "AsyncIterable"]
+    ctx.check(len(disp) == 1, "R19.2", u, disp[0] if disp else "any_iter", "the resolved object is dispatched on AsyncIterable")
+    if len(disp) != 1:
+        return
+    it_name = norm(disp[0].ast.args[0])
+    # every path from entry to the dispatch decides by isinstance(arg, Awaitable) whether to await
+    outer_tests = [n for n in main if n.kind == "branch" and isinstance(n.ast, ast.Call) and norm(n.ast.func) == "isinstance"
+                   and norm(n.ast.args[0]) == p and norm(n.ast.args[1]) == "Awaitable"]
+    ok = len(outer_tests) == 1
+    if ok:
+        for path in enumerate_paths(cfg, cfg.entry, lambda n: n is disp[0]):
+            nodes = [n for n, _l in path]
+            taken = [lab for n, lab in path if n is outer_tests[0]]
+            awaits = [n for n in nodes if n.kind == "await"]
+            stores = [n for n in nodes if n.kind == "store" and it_name in [t.id for t in n.info.get("targets", []) if isinstance(t, ast.Name)]]
+            if not taken or not stores:
+                ok = False
+                continue
+            last = stores[-1].info.get("value")
+            if isinstance(last, ast.IfExp):
+                neg = isinstance(last.test, ast.UnaryOp)
+                last = (last.orelse if neg else last.body) if taken[0] == "t" else (last.body if neg else last.orelse)
+            if taken[0] == "t":
+                ok = ok and len(awaits) == 1 and norm(awaits[0].info.get("value")) == p and isinstance(last, ast.Await)
+            else:
+                ok = ok and not awaits and norm(last) == p
+    ctx.check(ok, "R19.2", u, outer_tests[0] if outer_tests else "any_iter", "the outer object is awaited iff it is an "
+              "Awaitable, before its iteration protocol is inspected")
+    branches = [s for s in ast.walk(u.node) if isinstance(s, ast.If) and s.test is disp[0].ast]
+    if len(branches) != 1:
+        ctx.fail("R19.2", u, disp[0], "the dispatch on AsyncIterable selects between an async-for and a for branch")
         return
     b = branches[0]
     a_loops = [s for s in b.body if isinstance(s, ast.AsyncFor)]
@@ -158,18 +174,29 @@ def r19_3(ctx) -> None:
     if not ok:
         return
     call = rets[0].value
+    cfg = cfg_of(u)
+    rnode = [n for n in cfg.nodes if n.kind == "return" and not n.tag][0]
+
+    def through_local(e):
+        if isinstance(e, ast.Name):
+            from .common import name_value
+            return name_value(ctx, u, cfg, rnode, e.id) or e
+        return e
+
     pos = [a for a in call.args]
-    ok = len(pos) == 1 and isinstance(pos[0], ast.Starred) and isinstance(pos[0].value, ast.ListComp)
+    ok = len(pos) == 1 and isinstance(pos[0], ast.Starred)
+    c = through_local(pos[0].value) if ok else None
+    ok = ok and isinstance(c, ast.ListComp)
     if ok:
-        c = pos[0].value
         g = c.generators[0]
         ok = len(c.generators) == 1 and norm(g.iter) == va and not g.ifs and isinstance(c.elt, ast.Await) \
             and norm(c.elt.value) == norm(g.target)
     ctx.check(ok, "R19.3", u, call, "every positional argument is awaited exactly once, in order")
     kws = call.keywords
-    ok = len(kws) == 1 and kws[0].arg is None and isinstance(kws[0].value, ast.DictComp)
+    ok = len(kws) == 1 and kws[0].arg is None
+    c = through_local(kws[0].value) if ok else None
+    ok = ok and isinstance(c, ast.DictComp)
     if ok:
-        c = kws[0].value
         g = c.generators[0]
         ok = len(c.generators) == 1 and norm(g.iter) == f"{kw}.items()" and not g.ifs and isinstance(g.target, ast.Tuple) \
             and norm(c.key) == norm(g.target.elts[0]) and isinstance(c.value, ast.Await) \
